@@ -84,6 +84,12 @@ func (c *monC14) After(m *Machine, s *Step) *Violation {
 		return nil
 	}
 	// a callback that satisfies every condition of the statement
+	// "On success the session identifies precisely the reported pair": an answer that reports
+	// success (the login-ok page or the requested return target) over a session that keeps
+	// naming somebody else is not a veto, it is a wrong binding
+	if r.Rec.HandlerErr == nil && r.UID() != wantPID && (strings.HasPrefix(r.Location, "/ok/") || (r.Location != "" && contains(redirPool, r.Location))) {
+		return violation("C14", "wrong-identity-bound:success-reported", "provider %q reported uid %q and the callback answered %q, but the session identifies %q, want %q", prov, id.UID, r.Location, r.UID(), wantPID)
+	}
 	if r.Rec.HandlerErr != nil || r.UID() == r.UIDBefore() && r.UIDBefore() != wantPID {
 		m.flag("valid-callback-not-logged-in")
 		if !usersEqual(s.Pre, s.Post) && r.UID() == r.UIDBefore() {
